@@ -262,6 +262,10 @@ func cmdCheck(args []string) int {
 		fmt.Fprintln(os.Stderr, "prelude:", err)
 		return 2
 	}
+	if err := loadOps(*verifDir); err != nil {
+		fmt.Fprintln(os.Stderr, "ops table:", err)
+		return 2
+	}
 	V, err := Load(opts, nil)
 	if err != nil {
 		fmt.Fprintln(os.Stderr, "load:", err)
@@ -286,7 +290,12 @@ func cmdCheck(args []string) int {
 			results = append(results, &FuncResult{Name: t.name, Contract: t.con, Err: "contract target missing: " + t.name})
 			continue
 		}
-		r := V.VerifyFunc(t.fn, t.con)
+		var r *FuncResult
+		if t.con.IsJet {
+			r = V.JetCheck(t.fn, t.con)
+		} else {
+			r = V.VerifyFunc(t.fn, t.con)
+		}
 		results = append(results, r)
 	}
 	for _, lm := range V.cf.Lemmas {
@@ -339,7 +348,11 @@ func cmdCheck(args []string) int {
 		var names []string
 		for _, r := range results {
 			for _, o := range r.Obls {
-				if o.Status == "proved" && !strings.HasPrefix(o.Kind, "safe") && !o.Cover {
+				// only obligations that exist independently of the shape of the code (postconditions, call-site
+				// coefficient checks, lemmas, loop invariants of annotated loops): their absence means a contract
+				// lost its target, which must not pass silently
+				keyKind := o.Kind == "post" || o.Kind == "post.err" || o.Kind == "site" || o.Kind == "lemma" || o.Kind == "panics.must" || o.Kind == "inv.init" || o.Kind == "inv.keep"
+				if o.Status == "proved" && keyKind && !o.Cover {
 					names = append(names, o.Name)
 				}
 			}
